@@ -457,8 +457,10 @@ type Facts struct {
 	RegistryWriters   map[string][]string `json:"registryWriters"`
 	PackageVarWriters map[string][]string `json:"packageVarWriters"`
 	PackageVarUsers   map[string][]string `json:"packageVarUsers"`
+	SubPackageVars    map[string][]string `json:"subPackageVars"` // package-level variables of the sub-packages (compare, sanitizer, …)
 	VarsAccess        map[string][][]Event `json:"varsAccessPaths"`
 	AsyncEvents       map[string][]string `json:"asyncEvents"`
+	AsyncUnwind       map[string][]string `json:"asyncUnwind"` // what runs, in order, when the called function panics
 	NestedForwarders  []string            `json:"nestedForwarders"`
 	Registry          [][3]string         `json:"registry"` // name, immediate, guard arity ("" = none)
 	WriteSites        []string            `json:"writeSites"`
@@ -770,6 +772,7 @@ func (ex *extractor) varsAccess(f *Facts) {
 // FunExpr async / spinasync / spin clauses and execAndPostProcess: the order of the wait-group events
 func (ex *extractor) asyncEvents(f *Facts) {
 	f.AsyncEvents = map[string][]string{}
+	f.AsyncUnwind = map[string][]string{}
 	fd := ex.funcs["FunExpr"]
 	if fd == nil {
 		return
@@ -807,6 +810,36 @@ func (ex *extractor) asyncEvents(f *Facts) {
 			ex.asyncStmt(s, &evs)
 		}
 		f.AsyncEvents[name] = append(evs, tail...)
+		// the goroutine's deferred calls in the order they RUN (last deferred first) on a panic of `function`
+		ast.Inspect(cc, func(n ast.Node) bool {
+			g, ok := n.(*ast.GoStmt)
+			if !ok {
+				return true
+			}
+			if lit, ok := g.Call.Fun.(*ast.FuncLit); ok {
+				var run []string
+				for _, st := range lit.Body.List {
+					d, ok := st.(*ast.DeferStmt)
+					if !ok {
+						continue
+					}
+					kind := "other"
+					if strings.HasSuffix(exprText(d.Call.Fun), ".wg.Done") {
+						kind = "wgDone"
+					} else if dl, ok := d.Call.Fun.(*ast.FuncLit); ok {
+						ast.Inspect(dl, func(m ast.Node) bool {
+							if c, ok := m.(*ast.CallExpr); ok && exprText(c.Fun) == "recover" {
+								kind = "recover"
+							}
+							return true
+						})
+					}
+					run = append([]string{kind}, run...)
+				}
+				f.AsyncUnwind[name] = run
+			}
+			return false
+		})
 		return false
 	})
 }
@@ -973,8 +1006,12 @@ func (ex *extractor) writeSites(f *Facts) {
 			case *ast.CompositeLit:
 				return true
 			case *ast.CallExpr:
+				if exprText(t.Fun) == "append" {
+					// append may write into, and returns a slice sharing, its first argument's array
+					return len(t.Args) > 0 && appendBaseFresh(t.Args[0], fresh)
+				}
 				switch exprText(t.Fun) {
-				case "make", "new", "maps.Clone", "append", "WithBackwardNavigation", "NewHashedTable", "CopyQuery",
+				case "make", "new", "maps.Clone", "WithBackwardNavigation", "NewHashedTable", "CopyQuery",
 					"bytes.NewBufferString", "strings.Split", "strings.SplitN", "ProcessAlias":
 					return true
 				}
@@ -990,7 +1027,9 @@ func (ex *extractor) writeSites(f *Facts) {
 			}
 			return false
 		}
-		// pass 1: locals initialised with a fresh value (incl. `var x T` declarations and range-less := )
+		// pass 1: locals initialised with a fresh value (incl. `var x T` declarations and range-less := );
+		// repeated, because `y := append(x, …)` is fresh only once `x` is known to be
+		for round := 0; round < 3; round++ {
 		ast.Inspect(d.Body, func(n ast.Node) bool {
 			switch t := n.(type) {
 			case *ast.AssignStmt:
@@ -1012,6 +1051,7 @@ func (ex *extractor) writeSites(f *Facts) {
 			}
 			return true
 		})
+		}
 		// a local that is ever re-assigned a non-fresh value is not fresh
 		ast.Inspect(d.Body, func(n ast.Node) bool {
 			if t, ok := n.(*ast.AssignStmt); ok && t.Tok == token.ASSIGN && len(t.Lhs) == len(t.Rhs) {
@@ -1054,7 +1094,8 @@ func (ex *extractor) writeSites(f *Facts) {
 			if rootedInFresh(target, fresh) {
 				return
 			}
-			if kind == "field" {
+			_, isSel := target.(*ast.SelectorExpr)
+			if kind == "field" || (kind == "append" && isSel) {
 				root := target
 				for {
 					if se, ok := root.(*ast.SelectorExpr); ok {
@@ -1089,6 +1130,12 @@ func (ex *extractor) writeSites(f *Facts) {
 					if len(t.Args) > 0 {
 						report("delete", t.Args[0])
 					}
+				case "append":
+					// writes into the spare capacity of its first argument: after `s := doc[a:b]` that is the
+					// caller's own array
+					if len(t.Args) > 0 && !appendBaseFresh(t.Args[0], fresh) {
+						report("append", t.Args[0])
+					}
 				case "copy", "maps.Copy":
 					if len(t.Args) > 0 {
 						report("copy", t.Args[0])
@@ -1103,6 +1150,14 @@ func (ex *extractor) writeSites(f *Facts) {
 		})
 	}
 	f.WriteSites = uniq(f.WriteSites)
+}
+
+// the first argument of append: nil, a literal, or something rooted in a value this function allocated
+func appendBaseFresh(e ast.Expr, fresh map[*ast.Object]bool) bool {
+	if id, ok := e.(*ast.Ident); ok && id.Name == "nil" {
+		return true
+	}
+	return rootedInFresh(e, fresh)
 }
 
 func stripIndex(e ast.Expr) ast.Expr {
@@ -1143,8 +1198,11 @@ func rootedInFresh(e ast.Expr, fresh map[*ast.Object]bool) bool {
 			return true
 		case *ast.CallExpr:
 			// only allocating calls are fresh roots; a conversion `Map(x)` or any other call may alias its argument
+			if exprText(t.Fun) == "append" {
+				return len(t.Args) > 0 && appendBaseFresh(t.Args[0], fresh)
+			}
 			switch exprText(t.Fun) {
-			case "make", "new", "maps.Clone", "append", "WithBackwardNavigation", "NewHashedTable", "CopyQuery",
+			case "make", "new", "maps.Clone", "WithBackwardNavigation", "NewHashedTable", "CopyQuery",
 				"bytes.NewBufferString", "strings.Split", "strings.SplitN", "ProcessAlias":
 				return true
 			}
@@ -1418,6 +1476,36 @@ func main() {
 	ex.execReader(f)
 	ex.parallelWorkers(f)
 	ex.packageVars(f)
+	// the same table for every sub-package that holds library code
+	f.SubPackageVars = map[string][]string{}
+	if entries, err := os.ReadDir(os.Args[1]); err == nil {
+		for _, e := range entries {
+			if !e.IsDir() || strings.HasPrefix(e.Name(), ".") || e.Name() == "vendor" || e.Name() == "testdata" {
+				continue
+			}
+			sub := load(filepath.Join(os.Args[1], e.Name()))
+			if len(sub.files) == 0 {
+				continue
+			}
+			sf := &Facts{}
+			sub.packageVars(sf)
+			// declared variables, whether or not a function mentions them yet
+			for _, file := range sub.files {
+				for _, d := range file.Decls {
+					if gd, ok := d.(*ast.GenDecl); ok && gd.Tok == token.VAR {
+						for _, sp := range gd.Specs {
+							for _, n := range sp.(*ast.ValueSpec).Names {
+								if n.Name == "_" {
+									continue
+								}
+								f.SubPackageVars[e.Name()+"."+n.Name] = sf.PackageVarUsers[n.Name]
+							}
+						}
+					}
+				}
+			}
+		}
+	}
 	ex.varsAccess(f)
 	ex.asyncEvents(f)
 	ex.forwarders(f)
@@ -1460,6 +1548,18 @@ func main() {
 	for _, k := range ukeys {
 		pu = append(pu, fmt.Sprintf("(%s, %s)", strconv.Quote(k), leanStrList(f.PackageVarUsers[k])))
 	}
+	{
+		var ks []string
+		for k := range f.SubPackageVars {
+			ks = append(ks, k)
+		}
+		sort.Strings(ks)
+		var items []string
+		for _, k := range ks {
+			items = append(items, "("+strconv.Quote(k)+", "+leanStrList(f.SubPackageVars[k])+")")
+		}
+		sb.WriteString("def subPackageVars : List (String × List String) :=\n  [" + strings.Join(items, ",\n   ") + "]\n\n")
+	}
 	sb.WriteString("def packageVarUsers : List (String × List String) :=\n  [" + strings.Join(pu, ",\n   ") + "]\n\n")
 	for _, k := range []string{"async", "spinasync", "spin"} {
 		var evs []string
@@ -1467,6 +1567,9 @@ func main() {
 			evs = append(evs, "."+e)
 		}
 		sb.WriteString("def " + k + "Events : List Ev := [" + strings.Join(evs, ", ") + "]\n")
+	}
+	for _, k := range []string{"async", "spinasync", "spin"} {
+		sb.WriteString("def " + k + "Unwind : List String := " + leanStrList(f.AsyncUnwind[k]) + "\n")
 	}
 	sb.WriteString("\ndef nestedForwarders : List String := " + leanStrList(f.NestedForwarders) + "\n\n")
 	var reg []string
